@@ -64,7 +64,8 @@ type qgen struct {
 	// fragments by type condition
 	byType   map[string][]*FragDef
 	inFrag   bool
-	aliasSig map[string]string // (parent type, alias) -> field signature it stands for, query-wide
+	aliasSig map[string]string // (response path of the parent, parent type, alias) -> field signature it stands for
+	path     string            // response path of the selection set being generated
 }
 
 func GenQuery(r *vh.Rng, spec *SchemaSpec, o QOpts) *Query {
@@ -145,11 +146,16 @@ func (g *qgen) field(t *TypeSpec, f *FieldSpec, depth int) *Node {
 	}
 	if !g.inFrag && g.r.Chance(20) {
 		al := []string{"a1", "a2", "zz"}[g.r.Intn(3)]
-		if cur, ok := g.aliasSig[t.Name+"."+al]; !ok || cur == sig {
+		// selections merge only under the same response path: an alias stands for one field there
+		k := g.path + "|" + t.Name + "." + al
+		if cur, ok := g.aliasSig[k]; !ok || cur == sig {
 			n.Alias = al
-			g.aliasSig[t.Name+"."+al] = sig
+			g.aliasSig[k] = sig
 		}
 	}
+	old := g.path
+	g.path = old + "/" + n.Alias
+	defer func() { g.path = old }()
 	rt := f.Ret
 	for rt.K == "list" {
 		rt = *rt.Elem
@@ -203,6 +209,39 @@ func (g *qgen) set(typ string, depth int) []*Node {
 					c.Alias = prev.Alias
 				}
 				out = append(out, c)
+			}
+		case k < 76 && depth > 0 && len(out) > 0 && !g.inFrag:
+			// the same composite field once more under another alias: the two response paths lead
+			// to the same objects
+			prev := out[g.r.Intn(len(out))]
+			if prev.Kind == "field" && prev.HasSub {
+				f := t.Field(prev.Name)
+				al := []string{"a1", "a2", "zz"}[g.r.Intn(3)]
+				sig := f.Name
+				if prev.Arg != nil {
+					sig = ArgKey(f.Name, *prev.Arg)
+				}
+				k := g.path + "|" + t.Name + "." + al
+				if cur, ok := g.aliasSig[k]; (!ok || cur == sig) && al != prev.Alias {
+					g.aliasSig[k] = sig
+					c := *prev
+					c.Alias = al
+					c.Dirs = g.dirs()
+					c.ID = g.id()
+					oldp := g.path
+					g.path = oldp + "/" + al
+					rt := f.Ret
+					for rt.K == "list" {
+						rt = *rt.Elem
+					}
+					if rt.K == "obj" {
+						c.Sub = g.set(rt.Name, depth-1)
+					} else {
+						c.Sub = g.unionSet(rt.Name, depth-1)
+					}
+					g.path = oldp
+					out = append(out, &c)
+				}
 			}
 		case k < 80 && depth > 0:
 			out = append(out, &Node{Kind: "inline", On: typ, Dirs: g.dirs(), ID: g.id(), Sub: g.set(typ, depth-1)})
